@@ -61,6 +61,7 @@ func run(r *vk.Run) {
 	// ---- registry under concurrent Add/Remove ----
 	if r.Selected("C12/registry/concurrent") {
 		concurrentRegistry(r)
+		reentrantCallbacks(r)
 	}
 
 	// ---- forwarding ----
@@ -147,6 +148,9 @@ func run(r *vk.Run) {
 				defaultNameCase(r, mt, r.CaseRand("defname/"+string(mt.Descriptor().FullName()), c), true)
 			}
 		}
+	}
+	if r.Selected("C12/default-name/") {
+		defaultNameOverlappingStreams(r)
 	}
 	perOther := r.Pick(2, 20)
 	for _, mt := range others {
